@@ -112,6 +112,6 @@ example : gps_week_in_s (2 ^ 64 - 1) = .ok 18446744073709180782 := by decide
     name, whatever inputs the harness happens to generate. -/
 theorem hidden_state_reviewed :
     Gen.HiddenState.sitesIn ["decode/time.rs"] =
-      [("decode/time.rs", "static GPS_TO_UNIX_OFFSET: u64 = 315964800;"), ("decode/time.rs", "static LEAP_SECONDS_SINCE_2017: u64 = 18;")] := by decide
+      [("decode/time.rs", "static GPS_TO_UNIX_OFFSET:u64=315964800;"), ("decode/time.rs", "static LEAP_SECONDS_SINCE_2017:u64=18;")] := by decide
 
 end Rs1090.Props.C18
